@@ -11,7 +11,13 @@ without `path`), `f.entityResults e` what `EntityLinter.lint_entity(e)` yields, 
 `L10nLinter.lint`.  `Except.error` = the Python code raises.
 -/
 import CLModel.Lint.Linter
+import CLModel.Lint.Run
+import CLModel.Lint.Util
+import CLModel.Lint.Cli
+import CLModel.Lint.Keyed
 import CLModel.Proofs.C19
+import CLModel.Proofs.C19Run
+import CLModel.Proofs.C19Util
 namespace C19
 open Lint Gen.Tables
 
@@ -455,5 +461,387 @@ def noSpanDemo : FileIn :=
 
 example : lintFile tupleDemo = .error "TypeError" := rfl
 example : lintFile noSpanDemo = .error "AssertionError" := rfl
+
+
+/-! ## Round 4
+
+### one run over several files (`L10nLinter.lint(files, get_reference_and_tests)`)
+
+`fileResults f` is what ONE file contributes (nothing without a parser, else `lint_file`'s results with the path);
+`lintRun` is the loop with its state (`RunState`: the `results` list and the paths the callable was asked). -/
+
+/-- `lint` over a file list = the concatenation, in list order, of what every file yields on its own;
+    it raises iff linting one of the files raises. -/
+theorem lint_concat (files : List FileIn) (rs : List PResult) :
+    lint files = .ok rs ↔
+      ∃ rss, All2 (fun f r => fileResults f = .ok r) files rss ∧ rs = rss.flatten :=
+  C19Run.lint_spec files rs
+
+/-- splitting the file list splits the results (the first failing file decides about the exception) -/
+theorem lint_append (a b : List FileIn) :
+    lint (a ++ b) =
+      (match lint a with
+       | .error x => .error x
+       | .ok ra =>
+         match lint b with
+         | .error x => .error x
+         | .ok rb => .ok (ra ++ rb)) :=
+  C19Run.lint_append a b
+
+/-- The state of a run is exactly: the results of `lint`, and one question to `get_reference_and_tests` per file
+    that has a parser, in list order.  Nothing else is carried from one file to the next. -/
+theorem lint_run_state (files : List FileIn) :
+    lintRun files =
+      (match lint files with
+       | .error x => .error x
+       | .ok rs => .ok { results := rs, asked := (files.filter (fun f => hasParser f.path)).map (·.path) }) := by
+  unfold lintRun
+  rw [C19Run.lintLoop_spec]
+  cases lint files <;> simp [RunState.init]
+
+/-- Independence: what a run reports for a path is what the file with that path yields on its own — whatever
+    the other files of the run are and wherever the file stands (paths pairwise distinct). -/
+theorem lint_file_independent (files : List FileIn) (rs : List PResult) (h : lint files = .ok rs)
+    (hn : (files.map (·.path)).Nodup) (f : FileIn) (hf : f ∈ files) :
+    fileResults f = .ok (rs.filter (fun p => p.1 == f.path)) :=
+  C19Run.lint_filter_path h hn hf
+
+/-- … in particular two runs that both contain the file report the same for it -/
+theorem lint_file_same_in_every_run (l₁ l₂ : List FileIn) (r₁ r₂ : List PResult)
+    (h₁ : lint l₁ = .ok r₁) (h₂ : lint l₂ = .ok r₂)
+    (n₁ : (l₁.map (·.path)).Nodup) (n₂ : (l₂.map (·.path)).Nodup) (f : FileIn) (m₁ : f ∈ l₁) (m₂ : f ∈ l₂) :
+    r₁.filter (fun p => p.1 == f.path) = r₂.filter (fun p => p.1 == f.path) := by
+  have a := lint_file_independent l₁ r₁ h₁ n₁ f m₁
+  have b := lint_file_independent l₂ r₂ h₂ n₂ f m₂
+  exact Except.ok.inj (a.symm.trans b)
+
+/-- reordering the files only reorders the results -/
+theorem lint_order (l₁ l₂ : List FileIn) (hp : l₁.Perm l₂) (rs : List PResult) (h : lint l₁ = .ok rs) :
+    ∃ rs', lint l₂ = .ok rs' ∧ rs.Perm rs' :=
+  C19Run.lint_perm hp rs h
+
+/-! ### occurrences of one key -/
+
+/-- Per-occurrence independence: what `lint_entity` yields for an element depends on the contents (positions), on the
+    multiset of keys of the file and on the reference — not on the VALUES of the other elements, in particular not on
+    whether other occurrences of the same key are changed. -/
+theorem lint_occurrence_independent (f g : FileIn) (e : Ent) (hc : f.contents = g.contents)
+    (hk : f.cur.map (·.key) = g.cur.map (·.key)) (hr : f.ref = g.ref) :
+    f.entityResults e = g.entityResults e := by
+  unfold FileIn.entityResults FileIn.lines FileIn.reference lintEntity lintFullEntity keyCount
+  rw [hc, hk, hr]
+
+/-- three occurrences of `k` on lines 1, 2, 3 with value classes 1, 2, 1 against a reference whose last `k` has class 1:
+    three duplicate errors, each on ITS line, and the changed-ID warning for the second occurrence only;
+    with the reference class 2 it is the first and the third that are changed -/
+def occDemo (refEq : Nat) : FileIn :=
+  { path := [97, 46, 105, 110, 105]
+    contents := #[107, 61, 97, 10, 107, 61, 98, 10, 107, 61, 97, 10]
+    cur := [ { kind := .entity, key := [107], eq := 1, mode := .ctx, s := 0, e := 3, vs := some (2, 3) },
+             { kind := .entity, key := [107], eq := 2, mode := .ctx, s := 4, e := 7, vs := some (6, 7) },
+             { kind := .entity, key := [107], eq := 1, mode := .ctx, s := 8, e := 11, vs := some (10, 11) } ]
+    ref := some [⟨[107], 9⟩, ⟨[107], refEq⟩] }
+
+example : (lintFile (occDemo 1)).toOption.map (fun rs => rs.map (fun r => (r.lineno, r.column, r.level == sError))) =
+    some [(1, 1, true), (2, 1, true), (2, 1, false), (3, 1, true)] := by decide
+
+example : (lintFile (occDemo 2)).toOption.map (fun rs => rs.map (fun r => (r.lineno, r.column, r.level == sError))) =
+    some [(1, 1, true), (1, 1, false), (2, 1, true), (3, 1, true), (3, 1, false)] := by decide
+
+/-! ### lint/util.py -/
+
+open LintUtil in
+/-- `default_reference_and_tests`: no reference, no tests, for every path -/
+theorem default_reference (path : Text) : defaultGet path = (none, none) := rfl
+
+open LintUtil in
+/-- `mirror_reference_and_tests`: an entry WITHOUT a reference is skipped without shifting the others — removing it
+    from the configuration (wherever it stands) changes no answer. -/
+theorem mirror_skips_entries_without_reference (locale : Option Text) (exclude : Option Files)
+    (pre post : List Rule) (r : Rule) (h : r.reference = none) (root path : Text) :
+    mirrorGet (.mk locale (pre ++ r :: post) exclude) root path = mirrorGet (.mk locale (pre ++ post) exclude) root path :=
+  C19Util.mirrorGo_insert root path pre post r h
+
+open LintUtil in
+/-- … so the answers are those of the configuration restricted to its entries that have a reference -/
+theorem mirror_only_reference_entries (files : Files) (root path : Text) :
+    mirrorGet files root path =
+      mirrorGet (.mk files.locale (files.matchers.filter (fun r => r.reference.isSome)) files.exclude) root path :=
+  C19Util.mirrorGo_filter root path files.matchers
+
+open LintUtil in
+/-- Every path covered by an entry with a reference gets exactly THAT entry's reference matcher re-rooted at the
+    reference project, and that entry's tests: the first entry (in `ProjectFiles.matchers` order) whose reference
+    matcher matches decides; entries before it that have no reference or do not match are passed over. -/
+theorem mirror_first_covering_entry (files : Files) (root path : Text) (pre post : List Rule) (r : Rule)
+    (m : PM.Matcher) (d : PM.GroupDict) (hm : files.matchers = pre ++ r :: post)
+    (hpre : ∀ x ∈ pre, C19Util.Skipped path x) (hr : r.reference = some m) (hmatch : m.match path = .ok (some d)) :
+    mirrorGet files root path =
+      (match m.sub (reroot m root) path with
+       | .error e => .error e
+       | .ok ref => .ok (ref, r.test)) := by
+  unfold mirrorGet
+  rw [hm, C19Util.mirrorGo_skip_prefix root path pre _ hpre]
+  exact C19Util.mirrorGo_hit root path r post m d hr hmatch
+
+open LintUtil in
+/-- a path that no entry with a reference covers has no reference and no tests -/
+theorem mirror_no_covering_entry (files : Files) (root path : Text)
+    (h : ∀ x ∈ files.matchers, C19Util.Skipped path x) : mirrorGet files root path = .ok (none, none) :=
+  C19Util.mirrorGo_none root path files.matchers h
+
+open LintUtil PM in
+/-- "re-rooted": the reference path is the expansion of the entry's reference pattern with the groups captured from
+    the linted path — the SAME body under the root of the reference project instead of the project's own root
+    (`ref = root ++ body`; the root is dropped only when the pattern's first segment is an absolute path). -/
+theorem mirror_reference_rerooted (m : Matcher) (root path ref : List Nat)
+    (h : m.sub (reroot m root) path = .ok (some ref)) :
+    ∃ d body, m.match path = .ok (some d) ∧
+      expandTop { m.pattern with root := none } (subEnv d m.env) = .ok body ∧ (ref = root ++ body ∨ ref = body) := by
+  rw [C19Util.sub_eq] at h
+  cases hm : m.match path with
+  | error e => rw [hm] at h; cases h
+  | ok od =>
+    rw [hm] at h
+    cases od with
+    | none => cases h
+    | some d =>
+      simp only at h
+      cases he : expandTop (reroot m root).pattern (subEnv d (reroot m root).env) with
+      | error e => rw [he] at h; cases h
+      | ok t =>
+        rw [he] at h
+        cases h
+        obtain ⟨body, hb, hor⟩ := C19Util.expandTop_rooted m.pattern root (subEnv d m.env) ref he
+        exact ⟨d, body, rfl, hb, hor⟩
+
+open LintUtil in
+/-- `l10n_base_reference_and_tests`: `(None, None)` iff `ProjectFiles.match` finds nothing, else the l10n path (the
+    first member of the tuple) and the tests of the matching entry -/
+theorem l10n_base_reference (files : Files) (path : Text) :
+    l10nBaseGet files path =
+      (match files.matchPath path with
+       | .error e => .error e
+       | .ok none => .ok (none, none)
+       | .ok (some r) => .ok (some r.l10n, r.tests)) := rfl
+
+open LintUtil in
+/-- `ProjectFiles.match` (the l10n-base callable): an entry without a reference whose l10n matcher does not apply to the
+    path (validation mode, or it does not match) is skipped without shifting the others — removing it changes no answer. -/
+theorem l10n_base_skips_entries_without_reference (b : Bool) (excl : List Nat → Except PM.PyErr Bool) (path : List Nat)
+    (pre post : List Rule) (r : Rule) (h : r.reference = none) (hl : b = false ∨ r.l10n.match path = .ok none) :
+    matchRules b excl path (pre ++ r :: post) = matchRules b excl path (pre ++ post) :=
+  C19Util.matchRules_insert b excl path pre post r h hl
+
+namespace UtilDemo
+open LintUtil PM
+
+/-- `a/*`, `b/*`, `l/*` rooted at `/p/` -/
+def mA : Matcher := { pattern := { nodes := [.lit [97, 47], .star 1, .lit []], root := some [47, 112, 47], prefixLen := 1 }, env := [] }
+def mB : Matcher := { pattern := { nodes := [.lit [98, 47], .star 1, .lit []], root := some [47, 112, 47], prefixLen := 1 }, env := [] }
+def mL : Matcher := { pattern := { nodes := [.lit [108, 47], .star 1, .lit []], root := some [47, 112, 47], prefixLen := 1 }, env := [] }
+
+/-- three entries: `b/*` with test "t", an l10n-only entry, `a/*` without tests -/
+def files : Files :=
+  .mk none [ { l10n := mL, reference := some mB, test := some [[116]] }, { l10n := mL }, { l10n := mL, reference := some mA, test := some [] } ] none
+
+/-- `/p/a/x` → `/q/a/x` (third entry, the l10n-only entry in between shifts nothing), `/p/b/x` → `/q/b/x` with the
+    first entry's tests, `/p/l/x` is covered by no reference -/
+example : (mirrorGet files [47, 113, 47] [47, 112, 47, 97, 47, 120]).toOption = some (some [47, 113, 47, 97, 47, 120], some []) := by
+  decide +kernel
+example : (mirrorGet files [47, 113, 47] [47, 112, 47, 98, 47, 120]).toOption = some (some [47, 113, 47, 98, 47, 120], some [[116]]) := by
+  decide +kernel
+example : (mirrorGet files [47, 113, 47] [47, 112, 47, 108, 47, 120]).toOption = some (none, none) := by decide +kernel
+
+end UtilDemo
+
+/-! ### checks.getChecker -/
+
+/-- `a.dtd` and `a.ftl.dtd` get a DTDChecker (DTD is tried before Fluent), `a.ini` the base Checker -/
+example : getCheckerCls [97, 46, 100, 116, 100] = .dtd ∧ getCheckerCls [97, 46, 102, 116, 108, 46, 100, 116, 100] = .dtd ∧
+    getCheckerCls [97, 46, 105, 110, 105] = .base := by decide +kernel
+
+/-- the generated table names all five classes, and only `DTDChecker` needs `set_reference(current)` -/
+theorem checker_needs_reference (c : CheckerCls) :
+    c.name.isSome = true ∧ (c.needsReference = some true ↔ c = .dtd) ∧ (c.needsReference = some false ↔ c ≠ .dtd) := by
+  cases c <;> decide
+
+/-! ### lint/cli.py main: exit status and printed lines -/
+
+open LintCli in
+/-- exit status 0 ⇔ there are no results, or `-W` is not given and every result is a warning -/
+theorem exit_status_zero_iff (rs : List PResult) (w : Bool) :
+    exitCode rs w = 0 ↔ rs = [] ∨ (w = false ∧ ∀ r ∈ rs, r.2.level = sWarning) :=
+  C19Util.exitCode_zero_iff rs w
+
+open LintCli in
+/-- exit status 1 ⇔ there is a result and (`-W` is given or some result is not a warning); there is no other status -/
+theorem exit_status_one_iff (rs : List PResult) (w : Bool) :
+    exitCode rs w = 1 ↔ rs ≠ [] ∧ (w = true ∨ ∃ r ∈ rs, r.2.level ≠ sWarning) :=
+  C19Util.exitCode_one_iff rs w
+
+open LintCli in
+theorem exit_status_le_one (rs : List PResult) (w : Bool) : exitCode rs w ≤ 1 := C19Util.exitCode_le_one rs w
+
+open LintCli in
+/-- errors present ⇒ exit status 1, with or without `-W` -/
+theorem exit_status_error (rs : List PResult) (w : Bool) (h : ∃ r ∈ rs, r.2.level = sError) : exitCode rs w = 1 := by
+  obtain ⟨r, hr, hl⟩ := h
+  rw [exit_status_one_iff]
+  refine ⟨fun e => (by rw [e] at hr; cases hr), Or.inr ⟨r, hr, ?_⟩⟩
+  rw [hl]
+  decide
+
+open LintCli in
+/-- one line per result, in the order of the results; a line is `<path> (<line>:<column>): <message>` -/
+theorem printed_lines (rel : Text → Text) (rs : List PResult) :
+    (printed rel rs).length = rs.length ∧
+      ∀ i (h : i < rs.length), (printed rel rs)[i]? =
+        some (rel rs[i].1 ++ [32, 40] ++ showInt rs[i].2.lineno ++ [58] ++ showInt rs[i].2.column ++ [41, 58, 32] ++ rs[i].2.message) := by
+  refine ⟨by simp [printed], ?_⟩
+  intro i h
+  simp [printed, h, printLine, interleave, lintCliFormatParts]
+
+open LintCli in
+/-- `main` ends in the usage error (exit status 2) exactly when `--l10n-reference` is given and does not name an
+    existing directory -/
+theorem main_usage_iff (inp : MainIn) :
+    (∃ _h : True, main inp = .usage) ↔ truthy inp.l10nReference = true ∧ (inp.splitLocale = [] ∨ inp.isdir = false) := by
+  unfold main
+  constructor
+  · rintro ⟨_, h⟩
+    by_cases hc : (truthy inp.l10nReference && (inp.splitLocale.isEmpty || !inp.isdir)) = true
+    · simp only [Bool.and_eq_true, Bool.or_eq_true, List.isEmpty_iff, Bool.not_eq_eq_eq_not, Bool.not_true] at hc
+      exact hc
+    · simp only [hc, Bool.false_eq_true, if_false] at h
+      split at h <;> cases h
+  · rintro ⟨h1, h2⟩
+    refine ⟨trivial, ?_⟩
+    have : (truthy inp.l10nReference && (inp.splitLocale.isEmpty || !inp.isdir)) = true := by
+      simp only [Bool.and_eq_true, Bool.or_eq_true, List.isEmpty_iff, Bool.not_eq_eq_eq_not, Bool.not_true]
+      exact ⟨h1, h2⟩
+    simp [this]
+
+open LintCli in
+/-- The command composed: when `main` ends normally, its results are those of ONE linter run over the reference files
+    that have a parser, each against the reference its `get_reference_and_tests` resolved, and the return value is
+    the exit status of these results. -/
+theorem main_results (inp : MainIn) (rv : Nat) (tr : List (Text × LintUtil.RefTests)) (rs : List PResult)
+    (h : main inp = .done rv tr rs) :
+    rv = exitCode rs inp.w ∧ ∃ fis, resolve inp inp.linted = .ok (fis, tr) ∧ lint fis = .ok rs := by
+  unfold main at h
+  split at h
+  · cases h
+  · split at h
+    · cases h
+    · rename_i results tr' hrun
+      cases h
+      exact ⟨rfl, C19Util.runFiles_eq_lint inp inp.linted _ _ hrun⟩
+
+open LintCli in
+/-- End to end: a duplicated ID in any linted file makes the command exit with status 1 (with or without `-W`,
+    whatever the references are). -/
+theorem main_duplicate_exits_one (inp : MainIn) (rv : Nat) (tr : List (Text × LintUtil.RefTests)) (rs : List PResult)
+    (h : main inp = .done rv tr rs) (f : Linted) (hf : f ∈ inp.linted) (hp : hasParser f.path = true)
+    (e : Ent) (he : e ∈ f.cur) (hk : e.kind = .entity) (hc : keyCount f.cur e.key > 1) : rv = 1 := by
+  obtain ⟨hrv, fis, hres, hlint⟩ := main_results inp rv tr rs h
+  obtain ⟨fi, hfi, hpath, _, hcur⟩ := C19Util.exists_resolved inp inp.linted fis tr hres f hf hp
+  obtain ⟨rss, hall, rfl⟩ := (lint_concat fis rs).1 hlint
+  obtain ⟨a, ha, hfa⟩ := hall.mem_left hfi
+  have hp' : hasParser fi.path = true := by rw [hpath]; exact hp
+  unfold fileResults at hfa
+  simp only [hp', Bool.not_true, Bool.false_eq_true, if_false] at hfa
+  cases hl : lintFile fi with
+  | error x => rw [hl] at hfa; cases hfa
+  | ok frs =>
+    rw [hl] at hfa
+    cases hfa
+    have hd := lint_duplicates_reported fi frs hl e (by rw [hcur]; exact he) hk (by rw [hcur]; exact hc)
+    rw [hrv]
+    apply exit_status_error
+    refine ⟨(fi.path, dupResult fi.lines e), List.mem_flatten.2 ⟨_, ha, List.mem_map.2 ⟨_, hd, rfl⟩⟩, ?_⟩
+    rfl
+
+open LintCli in
+/-- End to end: an unparsed region in any linted file makes the command exit with status 1. -/
+theorem main_junk_exits_one (inp : MainIn) (rv : Nat) (tr : List (Text × LintUtil.RefTests)) (rs : List PResult)
+    (h : main inp = .done rv tr rs) (f : Linted) (hf : f ∈ inp.linted) (hp : hasParser f.path = true)
+    (e : Ent) (he : e ∈ f.cur) (hk : e.kind = .junk) : rv = 1 := by
+  obtain ⟨hrv, fis, hres, hlint⟩ := main_results inp rv tr rs h
+  obtain ⟨fi, hfi, hpath, _, hcur⟩ := C19Util.exists_resolved inp inp.linted fis tr hres f hf hp
+  obtain ⟨rss, hall, rfl⟩ := (lint_concat fis rs).1 hlint
+  obtain ⟨a, ha, hfa⟩ := hall.mem_left hfi
+  have hp' : hasParser fi.path = true := by rw [hpath]; exact hp
+  unfold fileResults at hfa
+  simp only [hp', Bool.not_true, Bool.false_eq_true, if_false] at hfa
+  cases hl : lintFile fi with
+  | error x => rw [hl] at hfa; cases hfa
+  | ok frs =>
+    rw [hl] at hfa
+    cases hfa
+    have hd := lint_junk_reported fi frs hl e (by rw [hcur]; exact he) hk
+    rw [hrv]
+    apply exit_status_error
+    refine ⟨(fi.path, junkResult fi.contents fi.lines e), List.mem_flatten.2 ⟨_, ha, List.mem_map.2 ⟨_, hd, rfl⟩⟩, ?_⟩
+    rfl
+
+open LintCli in
+/-- warnings only: the exit status is 1 exactly with `-W` -/
+theorem exit_status_warnings_only (rs : List PResult) (w : Bool) (hne : rs ≠ [])
+    (hall : ∀ r ∈ rs, r.2.level = sWarning) : exitCode rs w = if w then 1 else 0 := by
+  cases w with
+  | false => simp only [Bool.false_eq_true, if_false]; exact (exit_status_zero_iff rs false).2 (Or.inr ⟨rfl, hall⟩)
+  | true => simp only [if_true]; exact (exit_status_one_iff rs true).2 ⟨hne, Or.inl rfl⟩
+
+/-! ### KeyedTuple with its fall-backs -/
+
+open LintKeyed in
+/-- `key in kt` for a key-like value: some item has that key -/
+theorem keyed_contains_key (items : Items) (k : Nat) :
+    contains items (.key k) = true ↔ ∃ it ∈ items, it.1 = k := by
+  have key : (items.map (·.1)).contains k = true ↔ ∃ it ∈ items, it.1 = k := by
+    simp only [List.contains_eq_mem, List.mem_map, decide_eq_true_eq]
+  rw [← key]
+  simp only [contains, AR.keyedContains_eq]
+  cases (items.map (·.1)).contains k <;> simp
+
+open LintKeyed in
+/-- the fall-back to `tuple.__contains__`: an entity OBJECT is found among the items; an unhashable value never is -/
+theorem keyed_contains_fallback (items : Items) (i : Nat) :
+    (contains items (.item i) = true ↔ ∃ it ∈ items, it.2 = i) ∧ contains items .unhashable = false := by
+  refine ⟨?_, rfl⟩
+  simp [contains]
+
+open LintKeyed in
+/-- `kt[key]` is the LAST item with the key; for a key no item has the swallowed `KeyError` ends in `TypeError` -/
+theorem keyed_getitem_key (items : Items) (k : Nat) :
+    getItem items (.key k) =
+      (match items.reverse.find? (fun it => it.1 == k) with
+       | some x => .ok x
+       | none => .error "TypeError") :=
+  C19Keyed.getItem_key items k
+
+/-! ### non-vacuity of the round-4 statements -/
+
+/-- two files in one run (the demo file under two names) and a file without a parser in between: the results are the
+    concatenation, and `get_reference_and_tests` is asked about the two parsed files only -/
+example :
+    (lintRun [demo, { demo with path := [97, 46, 116, 120, 116] }, { demo with path := [98, 46, 105, 110, 105] }]).toOption.map
+      (fun st => (st.results.map (fun r => (r.1, r.2.lineno)), st.asked)) =
+    some ([([97, 46, 105, 110, 105], 1), ([97, 46, 105, 110, 105], 1), ([97, 46, 105, 110, 105], 1), ([97, 46, 105, 110, 105], 2),
+           ([97, 46, 105, 110, 105], 3), ([98, 46, 105, 110, 105], 1), ([98, 46, 105, 110, 105], 1), ([98, 46, 105, 110, 105], 1),
+           ([98, 46, 105, 110, 105], 2), ([98, 46, 105, 110, 105], 3)],
+          [[97, 46, 105, 110, 105], [98, 46, 105, 110, 105]]) := by decide
+
+/-- exit statuses: no result 0; a warning 0 without -W and 1 with it; an error 1 -/
+example : LintCli.exitCode [] true = 0 ∧
+    LintCli.exitCode [([], { lineno := 1, column := 1, level := sWarning, message := [] })] false = 0 ∧
+    LintCli.exitCode [([], { lineno := 1, column := 1, level := sWarning, message := [] })] true = 1 ∧
+    LintCli.exitCode [([], { lineno := 1, column := 1, level := sWarning, message := [] }),
+                      ([], { lineno := 1, column := 1, level := sError, message := [] })] false = 1 := by decide
+
+/-- "a (3:1): m" -/
+example : LintCli.printLine [97] { lineno := 3, column := 1, level := sError, message := [109] } =
+    [97, 32, 40, 51, 58, 49, 41, 58, 32, 109] := by decide
 
 end C19
